@@ -12,7 +12,8 @@ What the verifier pins down (characterisations, read off the verifier):
 `squareA.E`, `squareB.E` are functions of the other fields: altering one of them alone is
 rejected), `transplant` (the sub-proofs of an accepted proof verify only against commitments with
 the same `E^(2^T) mod n`), `range_binding` (acceptance under two bound pairs / two bases forces
-`g^bb ≡ g'^bb'`, hence equal `bb` or an `OrderRelation`).
+`g^bb ≡ g'^bb'`, hence equal `bb` or an `OrderRelation`), `same_secret_binding` (same challenge,
+altered responses ⇒ `RepCollision ∨ ConcatAmbiguity ∨ ClHashCollision`), `prover_panics_iff`.
 
 "`E` represents `u`" (`Rep n E u`) means `E ≡ u` in `ℤ/n` for a unit `u`; exponents of units are
 integers of either sign (the blindings `r_2`, `r_3`, `ν` range over symmetric intervals).
@@ -349,5 +350,27 @@ theorem range_binding_bounds (hA : ArithOK) {cs : Suite} {π : RangeProof} {g h 
   rcases lt_or_gt_of_ne hbb with hlt | hgt
   · exact key (bb' - bb) (by omega) (by rw [zpow_sub, huu, mul_inv_cancel])
   · exact key (bb - bb') (by omega) (by rw [zpow_sub, huu, mul_inv_cancel])
+
+/-- **Altered responses of a sub-proof.** Two `proof_same_secret` proofs accepted for the same
+statement (unit bases, unit `E`, `F`) and carrying the same challenge are equal, or exhibit a
+non-trivial relation between the bases, or a hash event (decimal concatenation ambiguity or a
+SHA-256 collision). (A proof with an altered challenge is a different Fiat–Shamir transcript; that
+it is rejected is a random-oracle statement, tested, not proven.) -/
+theorem same_secret_binding (hA : ArithOK) {n : Int} (hn : 1 < n)
+    {g1 h1 g2 h2 E F : Int} (hg1 : Int.gcd g1 n = 1) (hh1 : Int.gcd h1 n = 1)
+    (hg2 : Int.gcd g2 n = 1) (hh2 : Int.gcd h2 n = 1) (hE : Int.gcd E n = 1) (hF : Int.gcd F n = 1)
+    {π π' : ProofSs} {tq tq' tq'' : List Draw}
+    (hv : verifySameSecret E F g1 h1 g2 h2 n π tq = .ok (true, tq'))
+    (hv' : verifySameSecret E F g1 h1 g2 h2 n π' tq = .ok (true, tq''))
+    (hc : π'.challenge = π.challenge) :
+    π' = π ∨ RepCollision n [g1, h1] ∨ RepCollision n [g2, h2] ∨ ConcatAmbiguity ∨
+      ClHashCollision := by
+  obtain ⟨u1, hu1⟩ := rep_of_gcd hn hg1
+  obtain ⟨v1, hv1⟩ := rep_of_gcd hn hh1
+  obtain ⟨u2, hu2⟩ := rep_of_gcd hn hg2
+  obtain ⟨v2, hv2⟩ := rep_of_gcd hn hh2
+  obtain ⟨e, he⟩ := rep_of_gcd hn hE
+  obtain ⟨f, hf⟩ := rep_of_gcd hn hF
+  exact ClRange.same_secret_binding hA hn hu1 hv1 hu2 hv2 he hf hv hv' hc
 
 end Zk.C16
